@@ -336,6 +336,11 @@ def install_wrapper_stubs(E, ctx, R, my, opts):
             key_ok(k, node)
             access('_cache[key]')
             s = R.cur()
+            if st.get('stored_by_me') and E.choose([('kept', None), ('evicted', None)],
+                                                   'read after own store') == 'evicted':
+                # the store may be a caller-supplied BOUNDED mapping (the LRU of the docstring): between this caller's
+                # own store and a later read of it another thread's store can evict the entry
+                E.throw('KeyError', origin='evicted-after-own-store')
             if E.branch(s.c_has):
                 st['hit'] = True
                 return VVal(s.c_val)
@@ -365,6 +370,7 @@ def install_wrapper_stubs(E, ctx, R, my, opts):
                             else z3.BoolVal(False), v.t == s.the_result), props={'C01', 'C06', 'C14'})
             e = my.get('ev')
             R.set(c_has=z3.BoolVal(True), c_val=v.t, st=z3.Store(s.st, e, 4) if e is not None else s.st)
+            st['stored_by_me'] = True
             return
         if o in ctx.tables:
             key_ok(k, node)
@@ -870,7 +876,8 @@ def t_wrapper(E):
                              s.cancel_req[me], props={'C06', 'C05'}, detail='origin: %s' % origin)
                 else:
                     E.oblige(Q + '/signals.exception_only_from_the_callers_own_invocation',
-                             z3.BoolVal(False), props={'C06', 'C05'}, detail='origin: %s (a caller whose wait ended '
+                             z3.BoolVal(False), props={'C06', 'C05', 'C14'} if origin == 'evicted-after-own-store' else
+                             {'C06', 'C05'}, detail='origin: %s (a caller whose wait ended '
                              'without a result must loop around and recover, not fail)' % origin)
         # ---- C05: no marker outlives its computation; waiters are woken
         if my.get('ev') is not None:
